@@ -341,15 +341,15 @@ class State:
         return self.heap[name], self.has[name]
 
 
-_SYM_CACHE: Dict[int, frozenset] = {}
+_SYM_CACHE: Dict[int, tuple] = {}          # ast id -> (term kept alive so the id cannot be reused, symbols)
 
 
 def symbols_of(t) -> frozenset:
     """names of the uninterpreted constants / functions occurring in t (cached per AST node id)"""
     i = t.get_id()
     r = _SYM_CACHE.get(i)
-    if r is not None:
-        return r
+    if r is not None and r[0].eq(t):
+        return r[1]
     out = set()
     seen = set()
     stack = [t]
@@ -368,9 +368,9 @@ def symbols_of(t) -> frozenset:
                 out.add(d.name())
             stack.extend(x.children())
     r = frozenset(out)
-    if len(_SYM_CACHE) > 200000:
+    if len(_SYM_CACHE) > 100000:
         _SYM_CACHE.clear()
-    _SYM_CACHE[i] = r
+    _SYM_CACHE[i] = (t, r)
     return r
 
 
